@@ -380,8 +380,14 @@ FinalAuto(m, ev) ==
       rateOk(ep) == LET w == window(ep)
                         expect == w \div period
                     IN 10 * cnt(ep) >= 8 * expect - 20 /\ 10 * cnt(ep) <= 12 * expect + 20
-      m1 == Check(m, "C16.heartbeats_at_the_configured_period",
+      \* "spaced by the configured period": judged on long periods only (>= 200 ms), where scheduling jitter is small against
+      \* the period: every gap between consecutive heartbeats of a steady channel lies in [period / 2, 2 * period]
+      hbOut(ep) == Get(m.hb, ep, <<>>)
+      spacedOk(ep) == \A i \in 2..Len(hbOut(ep)) : LET g == hbOut(ep)[i] - hbOut(ep)[i - 1] IN 2 * g >= period /\ g <= 2 * period
+      m0 == Check(m, "C16.heartbeats_at_the_configured_period",
                   ~HbWanted(m) \/ m.conf.skip_hb_rate \/ \A ep \in steadyEps : rateOk(ep), ev)
+      m1 == Check(m0, "C16.heartbeats_spaced_by_the_period",
+                  ~HbWanted(m) \/ m.conf.skip_hb_rate \/ period < 200 \/ \A ep \in steadyEps : spacedOk(ep), ev)
       \* stream requests: per (ep, inst, sys, comp) of the first ardupilot heartbeat event
       keys == {<<m.apHb[i].ep, m.apHb[i].sys, m.apHb[i].comp>> : i \in 1..Len(m.apHb)}
       reqs(k) == SelectSeq(m.sr, LAMBDA r : r.ep = k[1] /\ r.sys = k[2] /\ r.comp = k[3])
